@@ -509,4 +509,20 @@ def allocShape : List (Option Nat) → List Nat → List Nat
 def standInShape (shape : List (Option Nat)) (rt : List Nat) : List Nat :=
   allocShape shape ((dynIdx shape 0).map fun i => rt.getD i 0)
 
+/-! ## layout of a global that is read through a subview (`ApplyLayoutCastSubviewGlobal`) -/
+
+/-- `max(stride.bound * stride.step for … in layout)` (0 for the empty layout, where Python raises) -/
+def maxExtent (l : SLayout) : Nat := (l.flatten.map fun s => s.bound * s.step).foldl max 0
+
+/-- the loop over `zip(layout.tstrides, const_shape)`: a dimension whose shape holds more than one tile gets one more,
+    outermost, stride for the tiles; `cur` = the running "current stride" -/
+def outerTiles : SLayout → List Nat → Nat → SLayout
+  | t :: ts, sh :: shs, cur =>
+    let rem := sh / prodB t
+    if rem > 1 then (⟨cur, rem⟩ :: t) :: outerTiles ts shs (cur * rem) else t :: outerTiles ts shs cur
+  | _, _, _ => []
+
+/-- the layout chosen for the whole global, given the layout of the subview (one tile) and the shape of the global -/
+def subviewGlobalLayout (l : SLayout) (shape : List Nat) : SLayout := outerTiles l shape (maxExtent l)
+
 end SnaxVerif.Casts
